@@ -158,7 +158,13 @@ func suiteV04(c *vctx) {
 			c.emit("law.C04.sasl_equals_store "+id, vtf((sok && serr == nil) == refOk))
 			// saslauthd socket end to end, within the transport's limits
 			if len(u) >= 1 && len(u) <= 256 && len(p) >= 1 && len(p) <= 256 {
+				// (a transport hiccup of a busy machine — a full accept queue — is not a verdict: the
+				// exchange is repeated; an error that persists is one)
 				wok, _, werr := client.Auth(u, p, "svc", "realm")
+				for try := 0; try < 3 && werr != nil; try++ {
+					time.Sleep(time.Duration(20*(try+1)) * time.Millisecond)
+					wok, _, werr = client.Auth(u, p, "svc", "realm")
+				}
 				c.emit("law.C04.sasl_socket_equals_store "+id, vtf(werr == nil && wok == refOk))
 			} else if len(u) > 256 || len(p) > 256 {
 				wok, _, _ := client.Auth(u, p, "svc", "realm")
@@ -169,14 +175,21 @@ func suiteV04(c *vctx) {
 			if len(u) >= 1 && len(u) <= 256 && len(p) >= 1 && len(p) <= 256 && r.Intn(4) == 0 {
 				q := &sasl.Request{Login: u, Password: p, Service: "svc", Realm: "realm"}
 				if enc, err := q.Marshal(); err == nil {
-					if cn, err := net.Dial("unix", sock); err == nil {
-						cuts := []int{1, 2 + len(u)/2, 2 + len(u) + 1, 2 + len(u) + 2 + (len(p)+1)/2, len(enc) - 1}
-						if r.Bool() {
-							cuts = nil
-							for k := 1; k < len(enc); k++ {
-								cuts = append(cuts, k) // one byte per write
-							}
+					cuts := []int{1, 2 + len(u)/2, 2 + len(u) + 1, 2 + len(u) + 2 + (len(p)+1)/2, len(enc) - 1}
+					if r.Bool() {
+						cuts = nil
+						for k := 1; k < len(enc); k++ {
+							cuts = append(cuts, k) // one byte per write
 						}
+					}
+					good, done := false, false
+					for try := 0; try < 3 && !good; try++ {
+						cn, err := net.Dial("unix", sock)
+						if err != nil {
+							time.Sleep(20 * time.Millisecond)
+							continue
+						}
+						done = true
 						prev := 0
 						for _, cut := range cuts {
 							if cut > prev && cut < len(enc) {
@@ -187,10 +200,16 @@ func suiteV04(c *vctx) {
 						}
 						cn.Write(enc[prev:])
 						var resp sasl.Response
-						cn.SetReadDeadline(time.Now().Add(5 * time.Second))
+						cn.SetReadDeadline(time.Now().Add(10 * time.Second))
 						derr := resp.Decode(cn)
 						cn.Close()
-						c.emit("law.C04.sasl_socket_equals_store fragmented "+id, vtf(derr == nil && resp.Result == refOk))
+						good = derr == nil && resp.Result == refOk
+						if derr == nil {
+							break // an answer is a verdict; only transport errors are repeated
+						}
+					}
+					if done {
+						c.emit("law.C04.sasl_socket_equals_store fragmented "+id, vtf(good))
 					}
 				}
 			}
